@@ -82,7 +82,7 @@ def run(ctx):
     ctx.extra["code_in_flight_scenarios"] = n2
     ctx.nontrivial += len(distinct)
     ctx.samples += [{"case": o["case"], "input": li[-300:], "observed": lo} for o, li, lo in list(zip(obs, ins, impl))[:3]]
-    ctx.rule = ("full cross product state{absent,empty,own,other attempt's,garbage,logout's} x code{absent,empty,own,other's} x iss{absent,right,foreign,right+'/',upper-cased,right+suffix,right minus last char} x iss-supported "
+    ctx.rule = ("full cross product state{absent,empty,own,other attempt's,garbage,logout's, near misses of the bound state: first character, minus last character, plus a suffix, letter case swapped} x code{absent,empty,own,other's} x iss{absent,right,foreign,right+'/',upper-cased,right+suffix,right minus last char} x iss-supported "
                 "x error{absent,empty,set} x cookie{absent,garbage,other key,own login,other attempt's login,this deployment's logout cookie,session ticket,retry value,non-JSON} "
                 "(client-secret variant exhaustive; private-key variant every third point in quick); each case uses two fresh real login attempts and a real logout")
     ctx.assumptions += ["ideal AEAD: a cookie opens only under the key it was sealed with", "the provider is the harness's fake provider (PKCE and redirect_uri enforcing)"]
